@@ -1,1 +1,4 @@
-//! Shared harness pieces.
+//! Shared harness pieces: TraceStore (recording / fault-injecting / schedulable
+//! object store), NDJSON helpers.
+pub mod tracestore;
+pub mod coll;
